@@ -28,6 +28,11 @@ type cfg14 struct {
 	// sequentially: a removed target refuses it and nothing is announced, a
 	// re-added target stores it where queries and subscribers find it
 	probe bool
+	// nestedLeaver: another client subscribed strictly BELOW the single-target
+	// subscriber's path (t1:[a/b] below t1:[a]) goes away first, at a moment the
+	// scheduler chooses; whatever its departure prunes, the remaining
+	// subscribers are still told when the target is removed
+	nestedLeaver bool
 }
 
 func configs14(tier string) []xplore.Config {
@@ -56,6 +61,9 @@ func configs14(tier string) []xplore.Config {
 	// the re-added target ends up holding the leaf, the whole-target delete of
 	// the old incarnation must have been announced before that update
 	out = append(out, xplore.Config{Name: "X=t1 W(t1)=remove || W'(t1)=add;upd a/b W(t2)=upd a/b (no leaf of the re-added target may be missing)", Bound: bound, Data: cfg14{w1: []wop{{"remove", ""}}, w2: []wop{{"upd", "a/b"}}, w1b: []wop{{"add", ""}, {"upd", "a/b"}}, missingOnly: true}})
+	for _, uo := range []bool{false, true} {
+		out = append(out, xplore.Config{Name: fmt.Sprintf("X=t1 updates_only=%v W(t1)=remove W(t2)=upd a/b, a client subscribed below X's path leaves first", uo), Bound: bound, Data: cfg14{w1: []wop{{"remove", ""}}, w2: []wop{{"upd", "a/b"}}, updatesOnly: uo, nestedLeaver: true}})
+	}
 	// an update for t1 still in flight (inside the change feed) while another
 	// goroutine removes (and re-adds) t1, then - everything quiet - one more
 	// update for t1: whatever the in-flight update left behind anywhere (a
@@ -132,6 +140,15 @@ func run14x(cfg xplore.Config, ch vrt.Chooser, trace bool) (xplore.Outcome, *vrt
 				st.returned = true
 				st.cancel()
 			})
+		}
+		if d.nestedLeaver {
+			y := newStream(subSpec{target: "t1", paths: []string{"a/b"}, mode: pb.SubscriptionList_STREAM})
+			vrt.GoNamed("subY", func() {
+				y.status = w.srv.Subscribe(y)
+				y.returned = true
+			})
+			vrt.GoNamed("Y-leaves", func() { y.cancel() })
+			vrt.Idle() // Y has come and gone before the target is removed
 		}
 		done := [2]bool{}
 		for i, sc := range [][]wop{d.w1, d.w2} {
